@@ -1,4 +1,5 @@
 """Helpers shared by the per-property contract modules."""
+import os
 import time
 
 import z3
@@ -8,6 +9,7 @@ from .symexec import Obligation, Unsupported, Infeasible, Raised, Engine
 from .speclib import LoopStepDone
 
 LIB_EXC = "odata_query.exceptions.ODataException"
+COVER_LEMMAS = True
 UNFOLD_ROUNDS = 4
 MAX_REFINE = 8
 
@@ -135,6 +137,15 @@ def judge1(E, name, clause, hyps, goal, source, timeout_ms, witness_terms=None, 
          "goal_text": str(z3.simplify(goal))[:400], "refinements": refinements}
     if extra:
         r.update(extra)
+    if st == "discharged" and path_idx is None and clause != "canary" and COVER_LEMMAS:
+        # vacuity guard for lemma-style obligations (path obligations are covered by path feasibility):
+        # the hypotheses alone must be satisfiable
+        cst, _, cdt, creason = discharge(hyps, z3.BoolVal(False), min(timeout_ms, 5000))
+        r["seconds"] += cdt
+        if cst == "discharged":
+            r["status"] = "undecided"
+            r["reason"] = "hypotheses are contradictory (vacuous obligation)"
+            r["selfcheck_failed"] = True
     if st == "refuted":
         r["solver_output"] = "sat\n" + str(model)[:3000]
         if witness_terms:
@@ -147,6 +158,8 @@ def outcomes_to_results(E, base, source, results, post, allowed_exc, witness_ter
     """results: [(path, outcome)] from explore().  post(path, value) -> z3 Bool | list[(clause, goal)].
     allowed_exc(exc) -> bool."""
     out = []
+    t_start = time.time()
+    budget = float(os.environ.get("VC_FAMILY_BUDGET", "150"))
     if not results:
         out.append({"name": f"{base}:cover", "clause": "cover", "status": "undecided", "seconds": 0.0,
                     "reason": "no feasible path: precondition unsatisfiable (vacuous)", "source": source,
@@ -176,8 +189,14 @@ def outcomes_to_results(E, base, source, results, post, allowed_exc, witness_ter
             out.append({"name": f"{base}:unsupported", "clause": "unsupported", "status": "undecided",
                         "seconds": 0.0, "reason": outcome[1], "source": source, "path": idx})
             continue
+        # cheap, decisive goals first (constant-false safety / ownership goals)
+        obls.sort(key=lambda o: 0 if z3.is_false(o.goal) else 1)
         for o in obls:
             extra = {"info": {k: str(v)[:200] for k, v in (o.info or {}).items()}} if o.info else None
+            if time.time() - t_start > budget:
+                out.append({"name": f"{base}:{o.clause}", "clause": o.clause, "status": "undecided", "seconds": 0.0,
+                            "reason": f"family time budget of {budget:.0f}s exhausted", "source": source, "path": idx})
+                continue
             out.append(judge(E, f"{base}:{o.clause}", o.clause, o.hyps, o.goal, source, timeout_ms,
                              witness_terms, extra=extra, path_idx=idx, exclude=exclude))
     return out
@@ -220,6 +239,10 @@ def visit_family(E, facts, prop, cls_qualname, kind, make_self, pre, post, allow
 ERR_PREFIX = "raise:"
 
 
+class SummaryFailed(Exception):
+    """The strongest postcondition of a function could not be derived (unsupported construct / explosion)."""
+
+
 def summarize(E, name, fref, nargs=1, self_arg=None, max_paths=400, pre=None):
     """Strongest postcondition of a pure repo function, derived mechanically: explore every path of the
     real source with symbolic arguments and turn (path condition, result) pairs into one DefFun body.
@@ -244,21 +267,26 @@ def summarize(E, name, fref, nargs=1, self_arg=None, max_paths=400, pre=None):
         args = [Sym(p) for p in params]
         if pre is not None:
             path.assume(pre(*params))
+        path.ghost["pre_n"] = len(path.pc)      # the body is guarded by `pre` as a whole: not repeated per case
         if self_arg is not None:
             args = [self_arg] + args
         return E.run_function(path, fref, args)
 
     def finish():
-        res = explore(E, runner, max_paths=max_paths)
+        try:
+            res = explore(E, runner, max_paths=max_paths)
+        except Unsupported as u:
+            raise SummaryFailed(f"summarize({name}): {u}")
         cases = []
         for path, out in res:
-            cond = z3.And(*path.pc) if path.pc else z3.BoolVal(True)
+            own = path.pc[path.ghost.get("pre_n", 0):]
+            cond = z3.And(*own) if own else z3.BoolVal(True)
             if out[0] == "return":
                 val = E.to_pv(out[1])
             elif out[0] == "raise":
                 val = U.extv(ERR_PREFIX + out[1].name, [])
             else:
-                raise Unsupported(f"summarize({name}): {out}")
+                raise SummaryFailed(f"summarize({name}): {out}")
             cases.append((cond, val))
         body = U.extv(ERR_PREFIX + "unreachable", [])
         for cond, val in reversed(cases):
